@@ -9,6 +9,9 @@
 //! on first use so that growth does not happen inside small harnesses).
 use core::ops::{Deref, DerefMut};
 
+/// largest sequence the stub's `drain_filter` handles (loud failure beyond)
+pub const M_MAX: usize = 8;
+
 pub unsafe trait Array
 {
     type Item;
@@ -61,13 +64,22 @@ impl<A: Array> SmallVec<A>
     {
         // survivors and removed items are moved one by one into fresh vectors (no `Vec::remove`: its memmove with a
         // symbolic length is what CBMC pays most for)
+        // constant capacities: an allocation whose size depends on a symbolic length is a symbolic-size object for
+        // CBMC (measured: a 2-entry table ran out of memory at 14 GB with `with_capacity(old.len())`)
         let old = core::mem::take(&mut self.m_items);
-        let mut keep: Vec<A::Item> = Vec::with_capacity(if old.len() < A::size() { A::size() } else { old.len() });
-        let mut removed: Vec<A::Item> = Vec::with_capacity(old.len());
+        if old.len() > M_MAX { panic!("model capacity exceeded: smallvec stub M_MAX"); }
+        let mut keep: Vec<A::Item> = Vec::with_capacity(M_MAX);
+        let mut removed: Vec<A::Item> = Vec::with_capacity(M_MAX);
+        // items are written straight into the pre-sized buffers (`Vec::push` would drag its growth path - a
+        // reallocation of symbolic size - into every unwound iteration)
+        let mut nk = 0usize;
+        let mut nr = 0usize;
         for mut item in old
         {
-            if filter(&mut item) { removed.push(item); } else { keep.push(item); }
+            if filter(&mut item) { unsafe { core::ptr::write(removed.as_mut_ptr().add(nr), item); } nr += 1; }
+            else { unsafe { core::ptr::write(keep.as_mut_ptr().add(nk), item); } nk += 1; }
         }
+        unsafe { keep.set_len(nk); removed.set_len(nr); }
         self.m_items = keep;
         removed.into_iter()
     }
